@@ -5,6 +5,7 @@ import (
 	"errors"
 	"fmt"
 	"io"
+	"strconv"
 
 	"github.com/goccy/go-json"
 )
@@ -112,6 +113,10 @@ func (o *CandidateNode) UnmarshalJSON(data []byte) error {
 	}
 	log.Debug("UnmarshalJSON -  its a scalar!")
 	// otherwise, must be a scalar
+	// an integer literal that fits int64 is kept exactly (the generic path goes through float64)
+	if exactInt, err := strconv.ParseInt(string(data), 10, 64); err == nil {
+		return o.setScalarFromJson(exactInt)
+	}
 	var scalar interface{}
 	err := json.Unmarshal(data, &scalar)
 
